@@ -690,6 +690,33 @@ fn run_external_families(e: &Sexp) -> R<Sexp> {
     }
 }
 
+
+// ------------------------------------------------------------------ case builders (tools)
+/// (flags L R) -> the full `strong_decompose` case (components computed by the real functions)
+fn run_mk_strong_case(e: &Sexp) -> R<Sexp> {
+    match e.as_list()? {
+        [flags, left, right] => match flags.as_list()? {
+            [r, _dir, _dec, simplify, _brk] => {
+                let left_p = conv::parse_program(left)?;
+                let right_p = conv::parse_program(right)?;
+                match t::strong_components(&[&left_p, &right_p], &[t::parse_repr(r)?], &[conv::parse_bool(simplify)?]) {
+                    None => Ok(skipped("fixpoint-bound")),
+                    Some(c) => Ok(l(vec![flags.clone(), left.clone(), right.clone(), c])),
+                }
+            }
+            _ => Err("mk_strong_case: flags".into()),
+        },
+        _ => Err("mk_strong_case: (flags left right) expected".into()),
+    }
+}
+/// (external ...) -> the full `external_decompose` case
+fn run_mk_external_case(e: &Sexp) -> R<Sexp> {
+    Ok(external_case(&parse_external_task(e)?))
+}
+fn gen_nothing(_rng: &mut Rng) -> Sexp {
+    l(vec![])
+}
+
 pub fn ops() -> Vec<Op> {
     let _ = a("");
     vec![
@@ -703,5 +730,7 @@ pub fn ops() -> Vec<Op> {
         Op { name: "proof_outline", generate: gen_proof_outline, run: run_proof_outline },
         Op { name: "external_decompose", generate: gen_external_decompose, run: run_external_decompose },
         Op { name: "external_families", generate: gen_external_families, run: run_external_families },
+        Op { name: "mk_strong_case", generate: gen_nothing, run: run_mk_strong_case },
+        Op { name: "mk_external_case", generate: gen_nothing, run: run_mk_external_case },
     ]
 }
